@@ -173,6 +173,19 @@ def handle (req : Sexp) : Sexp :=
           (applyAssignments vals asg)
       | none => bad
     | _, _, _ => bad
+  | .list [.atom "nearblocks", r, tbl] =>
+    -- every joint block read back after the write-back of nearest_valid_parameters
+    -- (`dist.variance.subs(nearest)`); "-" where no assignment wrote the parameter at that position
+    match rvs? r, nearTable? tbl with
+    | some r, some tbl =>
+      let near := fun (m : List (List Entry)) =>
+        match tbl.lookup m with
+        | some (some rows) => some (fun i j => (rows.getD i []).getD j "?")
+        | _ => none
+      let asg := nearestAssignments (fun m => m) near r
+      .list ((r.filter (·.joint)).map fun d =>
+        .list ((blockAfter asg d).map fun row => .list (row.map fun v => .atom (v.getD "-"))))
+    | _, _ => bad
   | .list [.atom "nearpath", answers] =>
     match answers.asList? with
     | some xs => match xs.mapM Sexp.asBool? with
